@@ -315,7 +315,34 @@ impl Director {
 }
 
 struct Log {
-    events: Mutex<Vec<(u64, Value)>>,
+    /// one buffer per thread (uncontended), merged by stamp at the end of the run
+    bufs: Mutex<Vec<Arc<Mutex<Vec<(u64, Value)>>>>>,
+}
+
+static ALIGN: AtomicBool = AtomicBool::new(false);
+/// Race mode: the k-th calls of all threads are released together (a spin barrier per step with a short
+/// time-out, so a parked or finished thread never stalls the others).
+pub fn set_align(on: bool) {
+    ALIGN.store(on, Ordering::SeqCst);
+}
+static JITTER_NS: AtomicU64 = AtomicU64::new(0);
+pub fn set_jitter(ns: u64) {
+    JITTER_NS.store(ns, Ordering::SeqCst);
+}
+/// Busy-wait a pseudo-random time below the jitter bound (xorshift; no wall clock in any verdict).
+fn jitter(state: &mut u64) {
+    let j = JITTER_NS.load(Ordering::Relaxed);
+    if j == 0 {
+        return;
+    }
+    *state ^= *state << 13;
+    *state ^= *state >> 7;
+    *state ^= *state << 17;
+    let ns = *state % j;
+    let t0 = Instant::now();
+    while (t0.elapsed().as_nanos() as u64) < ns {
+        std::hint::spin_loop();
+    }
 }
 
 pub fn run_history(tr: &Tracer, run: i64, ops: &[Value], sched: Option<&Vec<i64>>) {
@@ -363,12 +390,15 @@ pub fn run_history(tr: &Tracer, run: i64, ops: &[Value], sched: Option<&Vec<i64>
     for t in progs.keys() {
         hands.entry(*t).or_insert_with(mk);
     }
-    let log = Arc::new(Log { events: Mutex::new(Vec::new()) });
+    let log = Arc::new(Log { bufs: Mutex::new(Vec::new()) });
     let director = Arc::new(Director::default());
     if sched.is_some() {
         let d = director.clone();
         eyeball_hook_install(Some(d));
     }
+    let maxlen = progs.values().map(|p| p.len()).max().unwrap_or(0);
+    let expected: Arc<Vec<i64>> = Arc::new((0..maxlen).map(|k| progs.values().filter(|p| p.len() > k).count() as i64).collect());
+    let arrivals: Arc<Vec<AtomicI64>> = Arc::new((0..maxlen).map(|_| AtomicI64::new(0)).collect());
     let mut joins = Vec::new();
     let mut statuses: BTreeMap<i64, Arc<Status>> = BTreeMap::new();
     let start = Arc::new(AtomicI64::new(0));
@@ -377,8 +407,12 @@ pub fn run_history(tr: &Tracer, run: i64, ops: &[Value], sched: Option<&Vec<i64>
         let sh = SendHands(hands.remove(&t).unwrap());
         let st = Arc::new(Status::default());
         statuses.insert(t, st.clone());
-        let log = log.clone();
+        let expected = expected.clone();
+        let arrivals = arrivals.clone();
+        let mybuf: Arc<Mutex<Vec<(u64, Value)>>> = Arc::new(Mutex::new(Vec::new()));
+        log.bufs.lock().unwrap().push(mybuf.clone());
         let start = start.clone();
+        let mut rng: u64 = 0x9E3779B97F4A7C15 ^ ((run as u64) << 8) ^ (t as u64);
         let directed = sched.is_some();
         let dir = director.clone();
         joins.push((t, thread::spawn(move || {
@@ -397,15 +431,25 @@ pub fn run_history(tr: &Tracer, run: i64, ops: &[Value], sched: Option<&Vec<i64>
             // a guard still held at the end of the program is released by one more (logged) call
             let mut prog = prog;
             prog.push(json!({"op": "DropGuard", "h": t, "a": 0, "b": 0, "n": 0}));
-            for o in &prog {
+            let align = !directed && ALIGN.load(Ordering::Relaxed);
+            for (k, o) in prog.iter().enumerate() {
                 if directed && gets(o, "op") != "DropGuard" {
                     dir.point("op");
+                }
+                if align && k < arrivals.len() {
+                    arrivals[k].fetch_add(1, Ordering::SeqCst);
+                    let t0 = Instant::now();
+                    while arrivals[k].load(Ordering::SeqCst) < expected[k] && t0.elapsed() < Duration::from_micros(30) {
+                        std::hint::spin_loop();
+                    }
                 }
                 if !can(&h, gets(o, "op")) {
                     continue; // skipped: handle absent in this interleaving
                 }
+                let inv = json!({"e": "inv", "t": t, "op": o["op"], "a": geti(o, "a")});
+                jitter(&mut rng);
                 let s_inv = stamp();
-                log.events.lock().unwrap().push((s_inv, json!({"e": "inv", "t": t, "op": o["op"], "a": geti(o, "a")})));
+                mybuf.lock().unwrap().push((s_inv, inv));
                 let r = catch(|| exec(&mut h, o, &st));
                 let s_resp = stamp();
                 let rv = match r {
@@ -414,7 +458,7 @@ pub fn run_history(tr: &Tracer, run: i64, ops: &[Value], sched: Option<&Vec<i64>
                     Err(_) => ret("Panic", 0),
                 };
                 let panicked = rv["t"] == "Panic";
-                log.events.lock().unwrap().push((s_resp, json!({"e": "resp", "t": t, "ret": rv})));
+                mybuf.lock().unwrap().push((s_resp, json!({"e": "resp", "t": t, "ret": rv})));
                 if panicked {
                     break;
                 }
@@ -502,7 +546,10 @@ pub fn run_history(tr: &Tracer, run: i64, ops: &[Value], sched: Option<&Vec<i64>
     if sched.is_some() {
         eyeball_hook_install(None);
     }
-    let mut evs = mem::take(&mut *log.events.lock().unwrap());
+    let mut evs: Vec<(u64, Value)> = Vec::new();
+    for b in log.bufs.lock().unwrap().iter() {
+        evs.extend(b.lock().unwrap().iter().cloned());
+    }
     evs.sort_by_key(|(s, _)| *s);
     for (_, mut e) in evs {
         e["run"] = json!(run);
